@@ -99,12 +99,18 @@ def rule_plumbing(rep: Report, idx: SourceIndex) -> None:
 	if nf is None or qf is None:
 		raise AnalysisError('Node.source_map / Nodes.source_map vanished')
 	nret = [n.value for n in nodes(FI(nf), ast.Return) if n.value is not None]
-	ok = len(nret) == 1 and isinstance(nret[0], ast.Call) and isinstance(nret[0].func, ast.Attribute) and nret[0].func.attr == 'source_map' and len(nret[0].args) == 1 and unparse(nret[0].args[0]) in ('self.full_path', 'self._full_path.origin')
-	r.check(ok, 'Node.source_map', nf.where, f'Node.source_map must return <nodes>.source_map(self.full_path): `{unparse(nret[0])[:100] if nret else ""}`')
+	shaped = len(nret) == 1 and isinstance(nret[0], ast.Call) and isinstance(nret[0].func, ast.Attribute) and nret[0].func.attr == 'source_map' and len(nret[0].args) == 1
+	if not shaped:
+		r.skip('Node.source_map', nf.where, f'Node.source_map is no longer one call <nodes>.source_map(<path>): `{unparse(nret[0])[:80] if nret else ""}`')
+	else:
+		r.check(unparse(nret[0].args[0]) in ('self.full_path', 'self._full_path.origin'), 'Node.source_map', nf.where, f'Node.source_map asks for the span of `{unparse(nret[0].args[0])[:60]}`, not of the node\'s own full path: every node reports another entry\'s region')
 	param = [p_ for p_ in qf.params() if p_ != 'self'][0]
 	qret = [n.value for n in nodes(FI(qf), ast.Return) if n.value is not None]
-	ok = len(qret) == 1 and isinstance(qret[0], ast.Attribute) and qret[0].attr == 'source_map' and isinstance(qret[0].value, ast.Call) and isinstance(qret[0].value.func, ast.Attribute) and qret[0].value.func.attr == 'by' and [unparse(a) for a in qret[0].value.args] == [param]
-	r.check(ok, 'Nodes.source_map', qf.where, f'Nodes.source_map must return <entries>.by({param}).source_map: `{unparse(qret[0])[:100] if qret else ""}`')
+	shaped = len(qret) == 1 and isinstance(qret[0], ast.Attribute) and qret[0].attr == 'source_map' and isinstance(qret[0].value, ast.Call) and isinstance(qret[0].value.func, ast.Attribute) and qret[0].value.func.attr == 'by' and len(qret[0].value.args) == 1
+	if not shaped:
+		r.skip('Nodes.source_map', qf.where, f'Nodes.source_map is no longer <entries>.by(<path>).source_map: `{unparse(qret[0])[:80] if qret else ""}`')
+	else:
+		r.check(unparse(qret[0].value.args[0]) == param, 'Nodes.source_map', qf.where, f'Nodes.source_map must return <entries>.by({param}).source_map: it looks up `{unparse(qret[0].value.args[0])[:60]}`, another entry than the one asked for')
 
 
 # ---- (3) ErrorRender quotation ------------------------------------------------------------------------------------------------------
@@ -220,7 +226,32 @@ def rule_quotation(rep: Report, idx: SourceIndex) -> None:
 		lx = FI(ll)
 		lineno_p = [p_ for p_ in ll.params() if p_ != 'self'][1]
 		subs = [n for n in nodes(lx, ast.Subscript) if linear(n.slice)[0] == {lineno_p: 1}]
-		r.check(bool(subs) and all(linear(n.slice)[1] == 0 for n in subs), 'line-index', ll.where, f'__load_line must index the lines with `{lineno_p}` itself (already 0-based): {[unparse(n)[:40] for n in subs]}')
+		if not subs:
+			r.skip('line-index', ll.where, f'__load_line no longer subscripts a list of lines with `{lineno_p}` (another way of selecting the line is not modelled)')
+		else:
+			r.check(all(linear(n.slice)[1] == 0 for n in subs), 'line-index', ll.where, f'__load_line must index the lines with `{lineno_p}` itself (already 0-based): {[unparse(n)[:40] for n in subs]}')
+		# the quoted line is addressed by the parser's line number: the file must be cut into lines where the parser counts them, at "\n" only
+		# (str.splitlines() also breaks at form feed, vertical tab, \x1c-\x1e, NEL, U+2028/9 and a lone \r, which the grammar treats as blanks)
+		for n in subs:
+			lst = n.value
+			if isinstance(lst, ast.Call) and isinstance(lst.func, ast.Attribute):
+				how = lst.func.attr
+				if how == 'splitlines':
+					r.violate('lines-cut-at-newline-only', (RENDER, n.lineno), f'__load_line cuts the file with `{unparse(lst)[:60]}`: splitlines() also breaks at form feed, U+2028 and a lone carriage return, where the parser does not start a new line, so for a source containing one of them the quotation shows an earlier physical line than the node\'s and the carets underline unrelated text', unparse(n)[:100])
+				elif how == 'split':
+					sep = lst.args[0].value if lst.args and isinstance(lst.args[0], ast.Constant) else None
+					r.check(sep in ('\n', b'\n'), 'lines-cut-at-newline-only', (RENDER, n.lineno), f'__load_line splits the file at {sep!r}; the parser counts lines by "\\n"', unparse(n)[:100])
+				elif how == 'readlines':
+					opens = [c_ for c_ in ast.walk(ll.node) if isinstance(c_, ast.Call) and unparse(c_.func) == 'open']
+					binary = any('b' in (const_str(kw.value) or '') for c_ in opens for kw in c_.keywords if kw.arg == 'mode') or any(len(c_.args) > 1 and 'b' in (const_str(c_.args[1]) or '') for c_ in opens)
+					if binary:
+						r.ok('lines-cut-at-newline-only', (RENDER, n.lineno), message='binary readlines(): lines end at \\n only')
+					else:
+						r.skip('lines-cut-at-newline-only', (RENDER, n.lineno), 'readlines() on a text-mode file: universal newlines also end a line at a lone \\r')
+				else:
+					r.skip('lines-cut-at-newline-only', (RENDER, n.lineno), f'line list `{unparse(lst)[:60]}` not classified')
+			else:
+				r.skip('lines-cut-at-newline-only', (RENDER, n.lineno), f'line list `{unparse(lst)[:60]}` not classified')
 		reps = [c_ for c_ in nodes(lx, ast.Call) if isinstance(c_.func, ast.Attribute) and c_.func.attr == 'replace' and len(c_.args) == 2 and const_str(c_.args[0]) == '\t']
 		for c_ in reps:
 			r.check(isinstance(const_str(c_.args[1]), str) and len(const_str(c_.args[1])) == 1, 'tab-keeps-columns', (RENDER, c_.lineno), f'a tab of the quoted line is replaced by `{const_str(c_.args[1])!r}`: columns count characters, so the replacement must be exactly one character or the carets shift right of the node on tab-indented lines', unparse(c_)[:80])
